@@ -211,6 +211,40 @@ def model_calls(steps, ns, has_val):
     return out
 
 
+def other_cfg(kind: str, cfg: dict) -> dict:
+    """another valid configuration of the same step kind (different value for every parameter that has one)"""
+    c = copy.deepcopy(cfg)
+    if kind == "matching_cost":
+        c["matching_cost_method"] = "ssd" if cfg.get("matching_cost_method") != "ssd" else "sad"
+        c["window_size"] = 1 if cfg.get("window_size", 5) != 1 else 3
+    elif kind == "aggregation":
+        c["cbca_distance"] = 2 if cfg.get("cbca_distance", 5) != 2 else 3
+        c["cbca_intensity"] = 4.0 if cfg.get("cbca_intensity", 30.0) != 4.0 else 9.0
+    elif kind == "cost_volume_confidence":
+        if cfg.get("confidence_method") in ("ambiguity", "risk"):
+            c["eta_max"] = 0.5 if cfg.get("eta_max", 0.7) != 0.5 else 0.3
+            c["eta_step"] = 0.1 if cfg.get("eta_step", 0.01) != 0.1 else 0.05
+        elif cfg.get("confidence_method") == "interval_bounds":
+            c["possibility_threshold"] = 0.5 if cfg.get("possibility_threshold", 0.9) != 0.5 else 0.8
+    elif kind == "disparity":
+        c["invalid_disparity"] = "NaN" if cfg.get("invalid_disparity", -9999) != "NaN" else -9999
+    elif kind == "refinement":
+        c["refinement_method"] = "quadratic" if cfg.get("refinement_method") != "quadratic" else "vfit"
+    elif kind == "filter":
+        if cfg.get("filter_method") == "median":
+            c["filter_size"] = 5 if cfg.get("filter_size", 3) != 5 else 3
+        elif cfg.get("filter_method") == "bilateral":
+            c["sigma_space"] = 0.9 if cfg.get("sigma_space", 6.0) != 0.9 else 0.7
+            c["sigma_color"] = 0.5 if cfg.get("sigma_color", 2.0) != 0.5 else 1.5
+    elif kind == "validation":
+        c["cross_checking_threshold"] = 0.5 if cfg.get("cross_checking_threshold", 1.0) != 0.5 else 2.0
+        if "interpolated_disparity" in cfg:
+            c["interpolated_disparity"] = "sgm" if cfg["interpolated_disparity"] != "sgm" else "mc-cnn"
+    elif kind == "multiscale":
+        c["marge"] = 3 if cfg.get("marge", 1) != 3 else 0
+    return c
+
+
 def products_equal(a, b) -> bool:
     return not build.snapshot_diff(build.snapshot(a), build.snapshot(b))
 
@@ -247,12 +281,10 @@ def pipeline_body(ctx: Ctx, p: dict) -> None:
                 steps = [steps[0]] + cvp + [steps[i_d]] + post
                 what = "re-ordered on a used machine"
             elif op == "check_other":
-                # the same steps with ANOTHER matching cost (measure and window) on the machine that has history
-                old_mc = steps[0][1]
-                new_mc = dict(old_mc, matching_cost_method="ssd" if old_mc.get("matching_cost_method") != "ssd" else "sad",
-                              window_size=1 if old_mc.get("window_size", 5) != 1 else 3)
-                steps = [[steps[0][0], new_mc]] + [list(s_) for s_ in steps[1:]]
-                what = "another matching cost on a used machine"
+                # the same step kinds with OTHER parameters in every step, on the machine that has history: nothing built
+                # for the previous pipeline (plugin objects, margins, flags) may survive
+                steps = [[n_, other_cfg(dfa.kind_of(n_), c_)] for n_, c_ in steps]
+                what = "other parameters in every step on a used machine"
                 sub_used = True
             else:
                 # a shorter pipeline on the machine that has history: one or two optional steps dropped
